@@ -1,5 +1,7 @@
 import MxModel.Proofs.C3
 import MxModel.Proofs.StructMechHistory
+import MxModel.Proofs.ExecResolveDerived
+import MxModel.Props.C02
 /-!
 # C03 – derived members equal re-derivation from defined members along the C3 order
 
@@ -15,6 +17,9 @@ correspondence: accept/refuse and the whole structural state after every edit). 
 `mech_refines_derivation` proves, for every operation sequence without bound, that the member table
 of every space of every reachable state *is* the derivation from scratch
 (`Proofs/StructMech*.lean`: invariant `SM.Inv`, preserved by each of the twelve operations).
+Last section: **a derived cells evaluates with names resolved in the sub space** – the structural state
+as a source of Exec definitions (`SM.structEnv`, `Proofs/ExecResolveDerived.lean`: the resolution layer
+`Exec/Resolve.lean` with sources, homes and reference values read off the member tables).
 -/
 namespace MxModel.C03
 open MxModel.C3 MxModel.Struct
@@ -380,5 +385,216 @@ example : specDefs [] {} (fun _ _ _ => none) (diamondOps ++ [.renameCells ["A"] 
 example : ((St.run [] {} diamondOps).step [] (.newSpace [] "E" [["A"], ["B"]] [])).2 = false := by decide
 
 end mechanism
+
+/-! ## A derived cells evaluates with names resolved in the sub space
+
+`SM.execEnv se ids D srcOf valOf st` is the Exec environment of the structural state `st`: every cells
+member `(q, x)` – own or derived – is a cells `ids.cid q x` of its own whose formula is the SOURCE its
+entry carries (`srcOf payload`; for a derived entry the payload of the first definer) resolved in the
+namespace of `q` (`SM.nsOf ids st q`: `q`'s cells, own and derived, then its references, own and derived,
+then the model-level references).  The resolution layer is pure Lean (not tied to the code by a
+correspondence of its own; the C01 oracle "names resolved in sub space" and the C03 oracle "values of
+derived cells vs a model rebuilt from definitions" observe the same thing on modelx). -/
+section derived_evaluation
+open MxModel.SM MxModel.Exec
+
+variable (se : SEnv) (ids : Ids) (D : Dec) (srcOf : Nat → Key → SProg) (valOf : Nat → Val)
+
+theorem defd_mem {st : SM.St} {a : Attr} {b : Path} {n : String} {v : Nat} (h : st.defd a b n = some v) :
+    st.mem a b n = some { derived := false, payload := v } := by
+  unfold St.defd at h
+  cases hm : st.mem a b n with
+  | none => rw [hm] at h; cases h
+  | some m =>
+    rw [hm] at h
+    obtain ⟨d, p⟩ := m
+    cases d with
+    | true => simp at h
+    | false => simp at h; subst h; rfl
+
+/-- **The formula of a derived cells is its first definer's SOURCE resolved in the SUB space's namespace.**
+In every reachable structural state, for a space `q` that holds a derived cells `n`: there is the first
+space `b` along the tail of `q`'s linearisation that defines `n` (`mech_derived_from_first_definer`); the
+derived entry carries `b`'s payload; the formula the executor sees for the derived cells `(q, n)` is
+`resolve (nsOf … q) (source of b's n)` – resolved in `q`'s namespace – while the definer's own cells
+`(b, n)` has the SAME source resolved in `b`'s namespace. -/
+theorem derived_cells_formula_is_definers_source_in_sub_space (kw : List String) (ops : List Op) (q : Path)
+    (n : String) (m : Member)
+    (hm : (St.run kw {} ops).mem .cells q n = some m) (hd : m.derived = true)
+    (hdec : D.cellOf (ids.cid q n) = (q, n)) (hnum : D.pathOf (D.num q) = q) :
+    ∃ b, (St.run kw {} ops).firstDef .cells ((St.run kw {} ops).tail q) n = some (b, m.payload) ∧
+      b ∈ (St.run kw {} ops).tail q ∧
+      (St.run kw {} ops).mem .cells b n = some { derived := false, payload := m.payload } ∧
+      (∀ key, (execEnv se ids D srcOf valOf (St.run kw {} ops)).formula (ids.cid q n, key) =
+        resolve (nsOf ids (St.run kw {} ops) q) (srcOf m.payload key)) ∧
+      (D.cellOf (ids.cid b n) = (b, n) → D.pathOf (D.num b) = b → ∀ key,
+        (execEnv se ids D srcOf valOf (St.run kw {} ops)).formula (ids.cid b n, key) =
+          resolve (nsOf ids (St.run kw {} ops) b) (srcOf m.payload key)) := by
+  obtain ⟨b, hb⟩ := (mech_derived_from_first_definer kw ops .cells q n).1 m hm hd
+  obtain ⟨h1, h2⟩ := firstDef_some _ _ _ _ _ _ hb
+  have hmb := defd_mem h2
+  refine ⟨b, hb, h1, hmb, fun key => ?_, fun hdb hnb key => ?_⟩
+  · exact structEnv_formula se ids D srcOf valOf _ q n key m hdec hnum hm
+  · exact structEnv_formula se ids D srcOf valOf _ b n key { derived := false, payload := m.payload } hdb hnb hmb
+
+/-- **(i) A name that the sub space overrides is read from the sub space.**  Where the definer's source
+looks a global name `x` up, the derived cells of `q` continues with what `q`'s namespace binds `x` to:
+`q`'s OWN cells of that name when `q` has one – defined in `q`, or derived into `q` (from whichever base
+comes first in `q`'s linearisation) –, else `q`'s own reference of that name (defined or derived) – never
+the definer's member (`ids.cid q x`, `ids.rid q x`: members have identities per space). -/
+theorem derived_cells_reads_sub_space_names (st : SM.St) (q : Path) (n : String) (m : Member) (key : Key)
+    (hm : st.mem .cells q n = some m)
+    (hdec : D.cellOf (ids.cid q n) = (q, n)) (hnum : D.pathOf (D.num q) = q)
+    (x : String) (k : Option Binding → SProg) (hsrc : srcOf m.payload key = .name x k) :
+    (execEnv se ids D srcOf valOf st).formula (ids.cid q n, key) =
+      resolve (nsOf ids st q) (k (nsOf ids st q x)) ∧
+    ((st.mem .cells q x).isSome = true → nsOf ids st q x = some (.cell (ids.cid q x))) ∧
+    (st.mem .cells q x = none → (st.childNames q).contains x = false → (st.mem .refs q x).isSome = true →
+      nsOf ids st q x = some (.ref (ids.rid q x))) := by
+  refine ⟨?_, nsOf_cells ids st q x, nsOf_refs ids st q x⟩
+  rw [structEnv_formula se ids D srcOf valOf st q n key m hdec hnum hm, hsrc]
+  rfl
+
+/-- … for a source that READS the global `x` (`y * 2`): the derived cells of `q` reads `q`'s reference
+`x`, with the value `q`'s entry carries – `q`'s own definition (an override) or the copy derived into `q` -/
+theorem derived_cells_reads_sub_space_reference (st : SM.St) (q : Path) (n : String) (m : Member) (key : Key)
+    (hm : st.mem .cells q n = some m)
+    (hdec : D.cellOf (ids.cid q n) = (q, n)) (hnum : D.pathOf (D.num q) = q)
+    (x : String) (k : Option Val → SProg) (onCell onNone : SProg)
+    (hsrc : srcOf m.payload key = SProg.readN x k onCell onNone)
+    (hc : st.mem .cells q x = none) (hch : (st.childNames q).contains x = false)
+    (mr : Member) (hr : st.mem .refs q x = some mr) (hdr : D.refOf (ids.rid q x) = (q, x)) :
+    (execEnv se ids D srcOf valOf st).formula (ids.cid q n, key) =
+      .read false (ids.rid q x) (fun o => resolve (nsOf ids st q) (k o)) ∧
+    (execEnv se ids D srcOf valOf st).refs (ids.rid q x) = some (valOf mr.payload) := by
+  refine ⟨?_, structEnv_refs se ids D srcOf valOf st q x mr hdr hr⟩
+  rw [structEnv_formula se ids D srcOf valOf st q n key m hdec hnum hm, hsrc]
+  exact resolve_readN_ref ids st q x k onCell onNone hc hch (by rw [hr]; rfl)
+
+/-- … for a source that CALLS the global `x`: the derived cells of `q` calls `q`'s cells `x` -/
+theorem derived_cells_calls_sub_space_cells (st : SM.St) (q : Path) (n : String) (m : Member) (key : Key)
+    (hm : st.mem .cells q n = some m)
+    (hdec : D.cellOf (ids.cid q n) = (q, n)) (hnum : D.pathOf (D.num q) = q)
+    (x : String) (key' : Key) (k : Res → SProg) (onRef : Option Val → SProg) (onNone : SProg)
+    (hsrc : srcOf m.payload key = SProg.callN x key' k onRef onNone)
+    (hx : (st.mem .cells q x).isSome = true) :
+    (execEnv se ids D srcOf valOf st).formula (ids.cid q n, key) =
+      .call (ids.cid q x, key') (fun r => resolve (nsOf ids st q) (k r)) := by
+  rw [structEnv_formula se ids D srcOf valOf st q n key m hdec hnum hm, hsrc]
+  exact resolve_callN_cell ids st q x key' k onRef onNone hx
+
+/-- **(iii) The formula of the derived cells depends only on the sub space's namespace – on the names the
+source mentions – and on the definer's source**: two structural states (before / after ANY edit), in both
+of which `q` has a cells `n` with the same source, and whose namespaces of `q` agree on the names that
+source mentions, give the derived cells the same formula (`resolve_congr`). -/
+theorem derived_cells_formula_depends_only_on_sub_namespace_and_source (st st' : SM.St) (q : Path) (n : String)
+    (key : Key) (m m' : Member)
+    (hdec : D.cellOf (ids.cid q n) = (q, n)) (hnum : D.pathOf (D.num q) = q)
+    (hm : st.mem .cells q n = some m) (hm' : st'.mem .cells q n = some m')
+    (hsrc : srcOf m'.payload key = srcOf m.payload key)
+    (hns : ∀ x, Mentions (srcOf m.payload key) x → nsOf ids st' q x = nsOf ids st q x) :
+    (execEnv se ids D srcOf valOf st').formula (ids.cid q n, key) =
+      (execEnv se ids D srcOf valOf st).formula (ids.cid q n, key) := by
+  rw [structEnv_formula se ids D srcOf valOf st q n key m hdec hnum hm,
+    structEnv_formula se ids D srcOf valOf st' q n key m' hdec hnum hm', hsrc]
+  exact resolve_congr _ _ _ hns
+
+/-- … hence so does its denotation: if, besides, the elements the derived cells can call (a call-closed
+set `C`) keep their formulas, and the references read from `C` and the existence of the cells of `C` are
+unchanged, then `Den` of the derived cells is the same in both states – whatever else the edit did to
+other spaces or to names the source does not mention (`C02.den_local`). -/
+theorem derived_cells_den_depends_only_on_sub_namespace_and_source (st st' : SM.St) (q : Path) (n : String)
+    (key : Key) (m m' : Member)
+    (hdec : D.cellOf (ids.cid q n) = (q, n)) (hnum : D.pathOf (D.num q) = q)
+    (hm : st.mem .cells q n = some m) (hm' : st'.mem .cells q n = some m')
+    (hsrc : srcOf m'.payload key = srcOf m.payload key)
+    (hns : ∀ x, Mentions (srcOf m.payload key) x → nsOf ids st' q x = nsOf ids st q x)
+    (inp : Node → Option Val) (C : Node → Prop) (R : RefId → Prop) (hC : C (ids.cid q n, key))
+    (hclosed : ∀ k, C k → C02.CallsIn C ((execEnv se ids D srcOf valOf st).formula k) ∧
+      C02.ReadsIn R ((execEnv se ids D srcOf valOf st).formula k))
+    (hform : ∀ k, C k → k ≠ (ids.cid q n, key) →
+      (execEnv se ids D srcOf valOf st').formula k = (execEnv se ids D srcOf valOf st).formula k)
+    (hrefs : ∀ r, R r → (execEnv se ids D srcOf valOf st').refs r = (execEnv se ids D srcOf valOf st).refs r)
+    (halive : ∀ k, C k → (execEnv se ids D srcOf valOf st').alive k.1 = (execEnv se ids D srcOf valOf st).alive k.1)
+    (r : Res) :
+    Den (execEnv se ids D srcOf valOf st') inp (ids.cid q n, key) r ↔
+      Den (execEnv se ids D srcOf valOf st) inp (ids.cid q n, key) r := by
+  have hloc := C02.den_local (execEnv se ids D srcOf valOf st) (execEnv se ids D srcOf valOf st') inp inp C R hclosed
+    (fun k hk => by
+      by_cases he : k = (ids.cid q n, key)
+      · subst he
+        exact derived_cells_formula_depends_only_on_sub_namespace_and_source se ids D srcOf valOf st st' q n key m m'
+          hdec hnum hm hm' hsrc hns
+      · exact hform k hk he)
+    (fun _ _ => rfl) (fun _ _ => rfl) (fun _ _ => rfl) hrefs halive
+  unfold Den
+  constructor
+  · rintro ⟨d, hd⟩; exact ⟨d, by rw [← hloc d _ hC]; exact hd⟩
+  · rintro ⟨d, hd⟩; exact ⟨d, by rw [hloc d _ hC]; exact hd⟩
+
+/-! ### (ii) with numbers: two sub spaces deriving the same cells evaluate it differently
+
+`B` defines `f = y * 2` (payload 1) and the reference `y = 1`; `S1(B)` overrides `y = 10`; `S2(B)` overrides
+nothing (it derives `y` from `B`).  Both derive `f`.  Through the mechanism (`Exec.evalTop`):
+`B.f() = 2`, `S1.f() = 20`, `S2.f() = 2`. -/
+def vOps : List Op := [
+  .newSpace [] "B" [] [], .newCells ["B"] "f" "f" 1, .setRef ["B"] "y" 1,
+  .newSpace [] "S1" [["B"]] [], .setRef ["S1"] "y" 10, .newSpace [] "S2" [["B"]] []]
+
+def vNum : Path → Nat
+  | ["B"] => 0 | ["S1"] => 1 | ["S2"] => 2 | _ => 3
+def vPath : Nat → Path
+  | 0 => ["B"] | 1 => ["S1"] | 2 => ["S2"] | _ => []
+/-- identities: ten per space; member 0 of a space is `f` (cells) / `y` (references) -/
+def vIds : Ids where
+  cid := fun q x => vNum q * 10 + (if x = "f" then 0 else 1)
+  rid := fun q x => vNum q * 10 + (if x = "y" then 0 else 1)
+  gid := fun _ => 99
+def vDec : Dec where
+  cellOf := fun c => (vPath (c / 10), if c % 10 = 0 then "f" else "?")
+  refOf := fun r => (vPath (r / 10), if r % 10 = 0 then "y" else "?")
+  num := vNum
+  pathOf := vPath
+/-- the source of payload 1: `y * 2` -/
+def vSrc : Nat → Key → SProg := fun _ _ =>
+  SProg.readN "y" (fun o => match o with
+    | some (.int i) => .ret (.int (i * 2))
+    | _ => .raise (.user kType)) (.raise (.user kType)) (.raise (.user kName))
+def vBase : SEnv where
+  src := fun _ => .raise errDead
+  home := fun _ => 0
+  nss := fun _ _ => none
+  cellName := fun _ => ""
+  cells := [0, 10, 20]
+  cached := fun _ => true
+  allowNone := fun _ => false
+  refs := fun _ => none
+  maxdepth := 10
+
+def vEnv : Env := execEnv vBase vIds vDec vSrc (fun p => .int p) (St.run [] {} vOps)
+
+example : (St.run [] {} vOps).mem .cells ["S1"] "f" = some { derived := true, payload := 1 } ∧
+    (St.run [] {} vOps).mem .cells ["S2"] "f" = some { derived := true, payload := 1 } ∧
+    (St.run [] {} vOps).mem .refs ["S1"] "y" = some { derived := false, payload := 10 } ∧
+    (St.run [] {} vOps).mem .refs ["S2"] "y" = some { derived := true, payload := 1 } := by decide
+
+example : (evalTop vEnv (vIds.cid ["B"] "f", []) {}).1 = .ok (.int 2) ∧
+    (evalTop vEnv (vIds.cid ["S1"] "f", []) {}).1 = .ok (.int 20) ∧
+    (evalTop vEnv (vIds.cid ["S2"] "f", []) {}).1 = .ok (.int 2) := by decide
+
+-- the theorems apply: `S1.f` is `B`'s source resolved in `S1`, reading `S1`'s own `y`
+example : ∃ b, (St.run [] {} vOps).firstDef .cells ((St.run [] {} vOps).tail ["S1"]) "f" = some (b, 1) :=
+  let ⟨b, h, _⟩ := derived_cells_formula_is_definers_source_in_sub_space vBase vIds vDec vSrc (fun p => .int p) [] vOps
+    ["S1"] "f" { derived := true, payload := 1 } (by decide) rfl (by decide) (by decide)
+  ⟨b, h⟩
+
+example : ∃ k, vEnv.formula (vIds.cid ["S1"] "f", []) = .read false (vIds.rid ["S1"] "y") k ∧
+    vEnv.refs (vIds.rid ["S1"] "y") = some (.int 10) :=
+  let h := derived_cells_reads_sub_space_reference vBase vIds vDec vSrc (fun p => .int p) (St.run [] {} vOps)
+    ["S1"] "f" { derived := true, payload := 1 } [] (by decide) (by decide) (by decide) "y" _ _ _ rfl (by decide)
+    (by decide) { derived := false, payload := 10 } (by decide) (by decide)
+  ⟨_, h.1, h.2⟩
+
+end derived_evaluation
 
 end MxModel.C03
